@@ -1253,9 +1253,8 @@ class DayTimeDuration(Duration):
 
     @classmethod
     def fromtimedelta(cls, td: datetime.timedelta) -> 'DayTimeDuration':
-        return cls(seconds=Decimal(
-            '{}.{:06}'.format(td.days * 86400 + td.seconds, td.microseconds)
-        ))
+        microseconds = (td.days * 86400 + td.seconds) * 1000000 + td.microseconds
+        return cls(seconds=Decimal(microseconds).scaleb(-6))
 
     def __init__(self, seconds: Union[Decimal, int] = 0) -> None:
         """
